@@ -15,19 +15,22 @@
   Every theorem quantifies over ALL block lists (any number of blocks, unbounded coordinates / decimal rendering),
   both strands, all feature keys / qualifier dictionaries without tab / line break.
 
-  What is proved, and what is left to the correspondence run (ops `tblgene`, `cdsfeat`, `coll`):
-    proved   text ⇄ reader (rows, marks, qualifiers, header, whole file); rows denote the blocks; block merging =
-             maximal runs of the covered positions; a printed feature meets `okFeat`; CDS flags (codon_start,
-             5'/3' completeness) and in-frame stop = the spec's reading of the letters, for a CDS object in one
-             uninterrupted reading frame; regenerated frames of a merged CDS are such a frame (C05-T4, outside
-             F-C05h); the reading-frame clauses do not change under merging; `pseudo` = any transcript; gene
-             strand = a majority strand; locus tags for every count / step.
-    partial  `cds_feature_of_merged_transcript_partial`: the step "CDSInterval.from_location(merged blocks,
-             regenerated frames) is again a well-formed CDS object whose first frame is the start frame" is a
-             hypothesis (`WFCDS`, `frameIter`), not derived from `Model.Tbl.mergeCDS`; `okFile` for a whole
-             collection is not composed from the per-feature theorems (the per-gene qualifier dictionaries are data).
+  What is proved (everything below), and what stays outside the Lean development:
+    proved   text ⇄ reader (rows, marks, qualifiers, header, whole call over several collections); rows denote the
+             blocks; block merging = maximal runs; the CDS object `TblGene` builds (merged blocks + regenerated frames
+             + `from_location`) is a well-formed CDS in one reading frame starting at the start frame (complement of
+             F-C05h) and its `CDSTblFeature` values / `has_in_frame_stop` are the spec's reading of the SOURCE blocks;
+             one gene end to end (coding: gene + mRNA + CDS per isoform, non-coding: gene + RNA per transcript, flavour
+             filter) against `Spec.Tbl.wantGene`; a whole `collection_to_tbl` call against `Spec.Tbl.okFiles`, locus
+             tags running on across collections; `_qualifiers_to_str` selection rules; seeding switch.
+    outside  the CONTENT of the qualifier dictionaries other than `locus_tag` / `codon_start` / `pseudo` (gene
+             symbols, notes, products, random `gnl|lab|…` identifiers) is data the theorems quantify over; that the
+             real dictionaries contain the two entries is checked by the `coll` runs.  Reproducibility for a fixed seed
+             is checked by exporting twice.  F-C05h inputs (5'-most merged CDS block shorter than the start frame) and
+             CDSs without a complete codon are outside `CodingTxOK` (the former is a finding, the latter is covered by
+             the `cdsfeat` / `coll` runs against the spec's "partial at both ends" reading).
 -/
-import BioCantor.Proofs.TblMain
+import BioCantor.Proofs.TblAll
 namespace BioCantor.Props.C17
 open BioCantor BioCantor.Model BioCantor.Model.Tbl BioCantor.Spec BioCantor.Spec.Tbl BioCantor.Proofs
 open BioCantor.Proofs.Tbl
@@ -142,34 +145,47 @@ theorem reading_frame_clauses_survive_merging (src : List Blk) (st : Strand) (f 
     (⟨mergedBlocks src, st, f, g⟩ : CdsIn).inFrameStop = (⟨src, st, f, g⟩ : CdsIn).inFrameStop :=
   cdsIn_merged src st f g h table
 
-/-- FULL STATEMENT (not proved): for every coding transcript with exon layout / CDS `src` (good blocks) and start
-    frame `f` not exceeding the 5'-most merged block, `Model.Tbl.tblGene` yields a CDS feature with blocks
-    `mergedBlocks src`, `codon_start = f + 1` and the two flags of `CdsIn ⟨src, strand, f, genome⟩`.
-    PROVED PART: the same for any CDS object `c` ON the merged blocks that is well formed, carries the start frame
-    first and is in one reading frame — i.e. everything except "`mkCDS` of the merged blocks with the regenerated
-    frames is such an object", which the `tblgene` / `coll` correspondence exercises instead. -/
-theorem cds_feature_of_merged_transcript_partial (src : List Blk) (st : Strand) (hgood : goodBlocks src = true)
-    (c : CDS) (hloc : c.loc = ⟨mergedBlocks src, st⟩) (h : WFCDS c)
-    (hshallow : shallowTrim (exonWalk c.loc (specFrames c)) = true)
-    (hkept : c.loc.blocks.length = 1 ∨ cdsKept c.loc (specFrames c) ≠ [])
-    (chrom : List Char) (hs : SeqOK c chrom) (halpha : ∀ ch ∈ chrom, ch.toUpper ∈ Gen.codonAlphabet)
+/-- **the CDS feature of a coding transcript, end to end** (this discharges the former `_partial`): take the CDS
+    object of the transcript (`c0`: source blocks `src`, any frame vector whose 5' frame is `fr`), let `TblGene` merge
+    the blocks, regenerate the frames and rebuild the object (`Model.Tbl.mergeCDS`), then compute `CDSTblFeature`'s
+    values: the object sits on `mergedBlocks src`, `codon_start = fr + 1`, and the two completeness flags are the
+    clauses of the property read off the SOURCE blocks and the chromosome letters.  Guard `hfirst` = complement of
+    F-C05h (the 5'-most merged block is at least as long as the start offset). -/
+theorem cds_feature_of_merged_transcript (c0 : CDS) (src : List Blk) (st : Strand) (hloc : c0.loc = ⟨src, st⟩)
+    (hst : st = .plus ∨ st = .minus) (hg : goodBlocks src = true) (hne : src ≠ [])
+    (fr : CDSFrame) (rest0 : List CDSFrame) (hfi : c0.frameIter = fr :: rest0) (hfr : fr ≠ .NONE)
+    (hfirst : (mergedBlocks src).length = 1 ∨ fr.value ≤ (firstLen ⟨mergedBlocks src, st⟩ : Int))
+    (chrom : List Char) (hseq : c0.seq = some chrom) (hcov : ∀ b ∈ src, b.2 ≤ chrom.length) (hch : ChromOK chrom)
     (table : Nat) (ht : table = 0 ∨ table = 1 ∨ table = 11)
-    (fr : CDSFrame) (rest : List CDSFrame) (hfr : c.frameIter = fr :: rest)
-    (f : Nat) (hf : fr.value = (f : Int)) (hplain : PlainFrame c f)
-    (hcod : (⟨src, st, f, chrom⟩ : CdsIn).codons ≠ some []) :
-    ∃ si ei, cdsFlags c (table : Int) = .ok (f + 1, si, ei) ∧
-      (⟨src, st, f, chrom⟩ : CdsIn).startPartial table = some si ∧
-      (⟨src, st, f, chrom⟩ : CdsIn).endPartial = some ei := by
-  have hci : cdsInOf c f chrom = ⟨mergedBlocks src, st, f, chrom⟩ := by unfold cdsInOf; rw [hloc]
-  obtain ⟨e1, e2, _⟩ := cdsIn_merged src st f chrom hgood table
-  have hcod' : (cdsInOf c f chrom).codons ≠ some [] := by
-    rw [hci]
-    have : (⟨mergedBlocks src, st, f, chrom⟩ : CdsIn).codons = (⟨src, st, f, chrom⟩ : CdsIn).codons := by
-      unfold CdsIn.codons; rw [cdsIn_merged_letters src st f chrom hgood]
-    rw [this]; exact hcod
-  obtain ⟨si, ei, h1, h2, h3⟩ := cdsFlags_spec c h hshallow hkept chrom hs halpha table ht fr rest hfr f hf hplain hcod'
-  rw [hci] at h2 h3
-  exact ⟨si, ei, h1, by rw [← e1]; exact h2, by rw [← e2]; exact h3⟩
+    (hcod : (⟨src, st, fr.value.toNat, chrom⟩ : CdsIn).codons ≠ some []) :
+    ∃ c si ei, mergeCDS c0 = .ok c ∧ c.loc = ⟨mergedBlocks src, st⟩ ∧
+      cdsFlags c (table : Int) = .ok (fr.value.toNat + 1, si, ei) ∧
+      (⟨src, st, fr.value.toNat, chrom⟩ : CdsIn).startPartial table = some si ∧
+      (⟨src, st, fr.value.toNat, chrom⟩ : CdsIn).endPartial = some ei :=
+  merged_cds_feature c0 src st hloc hst hg hne fr rest0 hfi hfr hfirst chrom hseq hcov hch table ht hcod
+
+/-- the object `mergeCDS` returns: on the merged blocks, same letters, the start frame first, well formed, shallow,
+    in ONE uninterrupted reading frame (`MergedCDS`) -/
+theorem merged_cds_is_well_formed_one_frame (c0 : CDS) (src : List Blk) (st : Strand) (hloc : c0.loc = ⟨src, st⟩)
+    (hst : st = .plus ∨ st = .minus) (hg : goodBlocks src = true) (hne : src ≠ [])
+    (fr : CDSFrame) (rest0 : List CDSFrame) (hfi : c0.frameIter = fr :: rest0) (hfr : fr ≠ .NONE)
+    (hfirst : (mergedBlocks src).length = 1 ∨ fr.value ≤ (firstLen ⟨mergedBlocks src, st⟩ : Int))
+    (chrom : List Char) (hseq : c0.seq = some chrom) (hcov : ∀ b ∈ src, b.2 ≤ chrom.length) :
+    ∃ c, mergeCDS c0 = .ok c ∧ MergedCDS (mergedBlocks src) st fr (some chrom) c :=
+  mergeCDS_spec c0 src st hloc hst hg hne fr rest0 hfi hfr hfirst chrom hseq hcov
+
+/-- `has_in_frame_stop` of the merged CDS object = "a codon before the last is a stop codon" on the SOURCE blocks -/
+theorem in_frame_stop_of_merged_transcript (c0 : CDS) (src : List Blk) (st : Strand) (hloc : c0.loc = ⟨src, st⟩)
+    (hst : st = .plus ∨ st = .minus) (hg : goodBlocks src = true) (hne : src ≠ [])
+    (fr : CDSFrame) (rest0 : List CDSFrame) (hfi : c0.frameIter = fr :: rest0) (hfr : fr ≠ .NONE)
+    (hfirst : (mergedBlocks src).length = 1 ∨ fr.value ≤ (firstLen ⟨mergedBlocks src, st⟩ : Int))
+    (chrom : List Char) (hseq : c0.seq = some chrom) (hcov : ∀ b ∈ src, b.2 ≤ chrom.length) (hch : ChromOK chrom)
+    (hcod : (⟨src, st, fr.value.toNat, chrom⟩ : CdsIn).codons ≠ some [])
+    (hacgt : ∀ cods, (⟨src, st, fr.value.toNat, chrom⟩ : CdsIn).codons = some cods →
+      ∀ cod ∈ cods, (standardCode cod).isSome = true) :
+    ∃ c b, mergeCDS c0 = .ok c ∧ hasInFrameStop c = .ok b ∧
+      (⟨src, st, fr.value.toNat, chrom⟩ : CdsIn).inFrameStop = some b :=
+  merged_cds_in_frame_stop c0 src st hloc hst hg hne fr rest0 hfi hfr hfirst chrom hseq hcov hch hcod hacgt
 
 /-! ### T5 — pseudo -/
 
@@ -251,6 +267,89 @@ theorem seeding_as_is_partial (s : Int) (h : s ≠ 0) : seedApplied false (some 
 /-- F-C17a witness: seed 0 is silently not applied -/
 theorem seed_zero_is_ignored_witness : seedApplied false (some 0) = false := by decide
 
+/-! ### T7 — one gene, one collection, one call -/
+
+/-- ONE GENE END TO END: for a gene inside the claim (`GeneOK`: ≥ 1 transcript; all isoforms coding and inside
+    `CodingTxOK`, or all non-coding), `Model.Tbl.tblGene` succeeds and its feature objects — after the flavour filter —
+    meet, one by one and in order, what `Spec.Tbl.wantGene` expects: gene feature (span, a majority strand, `pseudo` iff
+    some isoform has an in-frame stop), then per isoform (mRNA,) CDS with merged blocks / marks / codon_start, or per
+    transcript one rRNA / tRNA / ncRNA feature with merged blocks. -/
+theorem gene_features_meet_expectation (g : Gene) (c : CollIn) (hch : ChromOK c.genome)
+    (ht : c.table = 0 ∨ c.table = 1 ∨ c.table = 11) (tag : Nat) (h : GeneOK c.genome g) :
+    ∃ skels ws, tblGene g (some c.genome) (c.table : Int) = .ok skels ∧
+      wantGene c tag (specGene g) = some ws ∧ Rel2 (SkelMeets tag) ws (flavourSkels c.prokaryotic skels) :=
+  tblGene_ok g c hch ht tag h
+
+/-- prokaryotic flavour: no `mRNA` feature is written and every other one is, order kept; eukaryotic: all of them -/
+theorem flavour_selects_features (prok : Bool) (fs : List Feature) :
+    flavourFilter prok fs = (if prok then fs.filter (fun f => f.key ≠ "mRNA".toList) else fs) ∧
+    (∀ f ∈ flavourFilter prok fs, f ∈ fs ∧ (prok = true → f.key ≠ "mRNA".toList)) ∧
+    (∀ f ∈ fs, (prok = false ∨ f.key ≠ "mRNA".toList) → f ∈ flavourFilter prok fs) :=
+  flavourFilter_spec prok fs
+
+/-- WHOLE CALL, text level: for collections with the expectations of the property (`wantAll`, gene numbering running
+    on) and printed features realising them, the text of the call reads back and meets `okFiles`. -/
+theorem staged_call_meets_okFiles (items : List (CollIn × List Want × List Feature)) (h : Staged 1 items) :
+    ∃ t secs, filesText (items.map (fun it => (it.1.seqName, it.2.2))) = some t ∧
+      Spec.Tbl.read t = some secs ∧ okFiles (items.map (·.1)) secs = true :=
+  okFiles_of_staged items h
+
+/-- WHOLE CALL, from the model's genes: any number of collections, each with any number of genes inside the claim and
+    qualifier dictionaries that carry the `locus_tag` (numbered on across collections) and `codon_start` entries —
+    `Model.Tbl.collectionFeatures` yields the features of every collection, the text of the call
+    (`>Features <name>` per collection) reads back, and the sections meet C17 (`Spec.Tbl.okFiles`). -/
+theorem collection_to_tbl_meets_property (table : Nat) (ht : table = 0 ∨ table = 1 ∨ table = 11) (prok : Bool)
+    (pre : List Char) (hpre : plainChars pre) (step : Nat)
+    (colls : List (List Char × List Char × List (Gene × List Quals)))
+    (h : CallStaged table prok pre step 1 colls) :
+    ∃ items : List (CollIn × List Want × List Feature),
+      items.map (·.1) = colls.map (fun x => collInOf x.1 x.2.1 table prok pre step x.2.2) ∧
+      Rel2 (fun (x : List Char × List Char × List (Gene × List Quals)) (it : CollIn × List Want × List Feature) =>
+        collectionFeatures prok (some x.2.1) (table : Int) x.2.2 = .ok it.2.2) colls items ∧
+      ∃ t secs, filesText (items.map (fun it => (it.1.seqName, it.2.2))) = some t ∧
+        Spec.Tbl.read t = some secs ∧
+        okFiles (colls.map (fun x => collInOf x.1 x.2.1 table prok pre step x.2.2)) secs = true :=
+  call_meets_property table ht prok pre hpre step colls h
+
+/-- the hypotheses of the whole-call theorem are satisfiable for EVERY gene inside the claim: dictionaries that fit the
+    objects `TblGene` yields exist (the minimal ones: `locus_tag`, plus `codon_start` on objects that carry one) -/
+theorem fitting_dictionaries_exist (c : CollIn) (hch : ChromOK c.genome) (ht : c.table = 0 ∨ c.table = 1 ∨ c.table = 11)
+    (hp : '\t' ∉ c.tagPrefix ∧ '\n' ∉ c.tagPrefix) (tagNo : Nat) (g : Gene) (h : GeneOK c.genome g) :
+    ∃ qs, QualsFit c tagNo g qs :=
+  qualsFit_exists c hch ht hp tagNo g h
+
+/-- several collections in one call read back as one section each, in order, under their own headers -/
+theorem several_collections_read_back (colls : List (List Char × List Feature)) (h : ∀ c ∈ colls, CollOK c) :
+    ∃ t, filesText colls = some t ∧ Spec.Tbl.read t = some (colls.map (fun c => ⟨c.1, c.2.map featOf⟩)) :=
+  filesText_read colls h
+
+/-- locus tags across the collections of one call: gene `j` (0-based) of collection `i` gets
+    `prefix_<(g + j + 1)·step>` with `g` the number of genes in the collections before it (the offset is not reset per
+    collection); together the tags are the one running sequence of `locus_tags_increase_by_step_and_are_distinct`. -/
+theorem locus_tags_run_on_across_collections (pre : List Char) (step : Nat) (counts : List Nat) (i j n : Nat)
+    (h : counts[i]? = some n) (hj : j < n) :
+    ((collectionTags pre (step : Int) counts)[i]?).bind (fun l => l[j]?)
+        = some (pre ++ '_' :: natStr (((counts.take i).sum + j + 1) * step)) ∧
+    (collectionTags pre (step : Int) counts).flatten = locusTags pre (step : Int) counts.sum :=
+  ⟨collectionTags_spec pre step counts i j n h hj, collectionTags_flatten pre step counts⟩
+
+/-! ### T8 — `_qualifiers_to_str` -/
+
+/-- what the reader finds under a key of the feature class's `VALID_KEYS`: for every dictionary entry with that key,
+    in dictionary order, its non-`None` values — reordered by `sorted` (`sortStrs_perm`: a permutation) and with the
+    characters `[ ] ( ) ;` removed; entries with an empty or all-`None` value list print nothing. -/
+theorem valid_key_values_read_back (f : Feature) (k : String)
+    (hk : (validKeys f.key).contains k.toList = true) (hnp : k.toList ≠ "pseudo".toList) :
+    qualValues (featOf f) k = printedValues k.toList f.quals ∧
+    ∀ vals : List (List Char), (sortStrs vals).Perm vals :=
+  ⟨qualValues_featOf f k hk hnp, sortStrs_perm⟩
+
+/-- a key outside `VALID_KEYS` of the feature class is never printed (e.g. `codon_start` on an mRNA feature, whose
+    dictionary object is shared with the CDS feature) -/
+theorem invalid_key_is_dropped (f : Feature) (k : List Char) (hk : (validKeys f.key).contains k = false) :
+    (qualPairsOf (validKeys f.key) f.quals).filter (fun p => p.1 = k) = [] :=
+  invalid_key_not_printed _ k hk f.quals
+
 /-! ### non-vacuity: concrete inputs satisfying the hypotheses -/
 
 /-- a minus-strand mRNA on three merged blocks, both ends partial, with qualifiers -/
@@ -326,4 +425,35 @@ example : geneStrand ([Strand.minus, .plus, .minus].map id) = some .minus := by 
 example : geneSpan [⟨.plus, [(5, 9), (9, 12)], none, none⟩, ⟨.minus, [(2, 7), (20, 31)], none, none⟩] = some (2, 31) := by
   decide
 example : (⟨some "lncRNA".toList, [⟨.plus, [(5, 9), (9, 12)], none, none⟩]⟩ : Gene).isCoding = false := by decide
+/-- a coding transcript inside `CodingTxOK` (minus strand, CDS = two adjacent blocks inside one exon + a third block,
+    start frame 0, one codon `ATG` … ) and a gene inside `GeneOK` -/
+def exampleTx : Tx :=
+  ⟨.plus, [(2, 11), (13, 19)], some ([(2, 6), (6, 11), (13, 19)], [.ZERO, .ONE, .ZERO]), some "protein_coding".toList⟩
+
+example : CodingTxOK "CCATGAAATAGCCGGGTAACC".toList exampleTx :=
+  ⟨Or.inl rfl, by decide, by decide, [(2, 6), (6, 11), (13, 19)], [.ZERO, .ONE, .ZERO], .ZERO, [.ONE, .ZERO], rfl,
+    by decide, by decide, by decide, by decide, by decide, by decide, Or.inr (by decide), by decide, by decide⟩
+example : ChromOK "CCATGAAATAGCCGGGTAACC".toList := ⟨by decide, by decide⟩
+
+def exampleGene : Gene := ⟨some "protein_coding".toList, [exampleTx]⟩
+
+theorem exampleGene_ok : GeneOK "CCATGAAATAGCCGGGTAACC".toList exampleGene := by
+  refine ⟨by decide, Or.inl ?_⟩
+  intro t ht
+  simp only [exampleGene, List.mem_singleton] at ht
+  subst ht
+  exact ⟨Or.inl rfl, by decide, by decide, [(2, 6), (6, 11), (13, 19)], [.ZERO, .ONE, .ZERO], .ZERO, [.ONE, .ZERO], rfl,
+    by decide, by decide, by decide, by decide, by decide, by decide, Or.inr (by decide), by decide, by decide⟩
+
+/-- the whole-call hypothesis holds for a one-collection call with that gene (eukaryotic, table 0, prefix `LT`, step 5) -/
+example : ∃ qs, CallStaged 0 false "LT".toList 5 1
+    [("chr1".toList, "CCATGAAATAGCCGGGTAACC".toList, [(exampleGene, qs)])] := by
+  obtain ⟨qs, hq⟩ := qualsFit_exists (collInOf "chr1".toList "CCATGAAATAGCCGGGTAACC".toList 0 false "LT".toList 5 [])
+    ⟨by decide, by decide⟩ (Or.inl rfl) ⟨by decide, by decide⟩ (1 * 5) exampleGene exampleGene_ok
+  exact ⟨qs, ⟨by decide, by decide, by decide⟩, ⟨by decide, by decide⟩, ⟨exampleGene_ok, hq, trivial⟩, trivial⟩
+example : NoncodingTxOK ⟨.minus, [(3, 9), (9, 12)], none, none⟩ := ⟨by decide, by decide, rfl⟩
+example : mergedBlocks [(2, 6), (6, 11), (13, 19)] = [(2, 11), (13, 19)] := by decide
+example : (collectionTags "LT".toList 5 [2, 0, 3]).map (·.length) = [2, 0, 3] := by decide
+example : (validKeys "mRNA".toList).contains "codon_start".toList = false := by decide
+
 end BioCantor.Props.C17
